@@ -1539,7 +1539,7 @@ func (u *Unit) execSelect(st *State, x *ast.SelectStmt, label string) []*Out {
 // recvAnchor runs ghost statements anchored at "recv:<channel expression>".
 func (u *Unit) recvAnchor(st *State, e ast.Expr, v *Value) {
 	ue, ok := ast.Unparen(e).(*ast.UnaryExpr)
-	if !ok || ue.Op != token.ARROW || len(u.frames) != 1 {
+	if !ok || ue.Op != token.ARROW || !u.anchorsApply() {
 		return
 	}
 	extra := map[string]Value{}
